@@ -22,12 +22,16 @@ COrder  == { Base("cut_order", P) @@ [k |-> k] : P \in Light, k \in 1 .. 3 }
 CTip    == UNION { { Base("cut_shorttip", P) @@ [el |-> el, thr |-> thr]
                      : el \in [1 .. Len(P) -> 1 .. 2], thr \in 0 .. 4 } : P \in { Q \in Heavy : Len(Q) >= 3 } }
 
+\* soma (type 1) at the root, the other nodes axon / basal / apical in rotation
+TyN(n, s)    == [i \in 1 .. n |-> IF i = 1 THEN 1 ELSE 2 + ((i + s) % 3)]
+CNeu    == { [op |-> "neurites", P |-> P, attr |-> Attr(Len(P), TyN(Len(P), s)), dend |-> d] : P \in Light, s \in 0 .. 2, d \in {0, 1} }
+
 Valid(c) == CASE c.op = "get_subtree" -> c.i \in Nodes(c.P)
               [] c.op = "cut_type"    -> \E k \in 1 .. Len(c.P) : c.attr[k][1] = c.t
               [] c.op = "cut_shorttip" -> c.el[1] = 1            \* the root has no incoming edge: fix its dummy length
               [] OTHER -> TRUE
 
-All      == { c \in CGet \cup CRemove \cup CEnter \cup CLeave \cup CType \cup COrder \cup CTip : Valid(c) }
+All      == { c \in CGet \cup CRemove \cup CEnter \cup CLeave \cup CType \cup COrder \cup CTip \cup CNeu : Valid(c) }
 AllSeq   == SetToSeq(All)
 Numbered == [k \in 1 .. Len(AllSeq) |-> [cid |-> k] @@ AllSeq[k]]
 
